@@ -242,7 +242,7 @@ def run_c02(tier, seed):
         lines2.append(lines[i]); meta2.append(meta[i])
     for procs in ("1", None):
         henv = dict(os.environ, GOMAXPROCS=procs) if procs else None
-        impl2, model2, failures2 = vlib.run_pair("parse", [], lines2, shards=6, henv=henv)
+        impl2, model2, failures2 = vlib.run_pair("parse", [], lines2, shards=6, henv=henv, model_too=False)    # (the expected outcome is written out below: monitor only)
         attribute_failures(chk, "parse", lines2, failures2, lambda l: l[:200])
         for j, (mt, a) in enumerate(zip(meta2, impl2)):
             if mt is None or a is None:
